@@ -276,3 +276,71 @@ def h_set_order(func: int, old_i: int, new_i: int, perm: int) -> bool:
         base = _meta_sql(name, old, new, 0)
     got = _meta_sql(name, old, new, perm)
     return hx.verdict(got == base, len(old) + len(new) >= 2)
+
+
+# ------------------------------------------------------------------ preview must not disturb the execution state
+from django_evolution.db.state import DatabaseState
+
+_TABLES = ['t0', 't1']
+_IDX = ['ix_a', 'ix_b', 'ix_c']
+_COLS = [['a'], ['b'], ['a', 'b']]
+
+
+def _dump_state(state):
+    out = []
+    for t in _TABLES:
+        if state.has_table(t):
+            out.append((t, sorted((ix.name, tuple(ix.columns), bool(ix.unique))
+                                  for ix in state.iter_indexes(t))))
+    return out
+
+
+def h_state_clone(n0: int, u0: bool, n1: int, u1: bool, two_tables: bool,
+                  op: int, ot: int, oi: int, ou: bool, side: bool) -> bool:
+    """The preview SQL (EvolveAppTask.prepare) is generated against DatabaseState.clone(), the
+    execution SQL afterwards against the original: an index added to / removed from / cleared on
+    one of the two (unique or not), or a table added to it, must not show in the other one, and
+    the clone starts out equal to the original.
+
+    pre: 0 <= n0 <= 2 and 0 <= n1 <= 2 and 0 <= op <= 3 and 0 <= ot <= 1 and 0 <= oi <= 2
+    pre: hx.in_part(op, ot, oi)
+    pre: not hx.excluded(n0, u0, n1, u1, two_tables, op, ot, oi, ou, side)
+    post: _
+    """
+    st = DatabaseState('default', scan=False)
+    st.add_table('t0')
+    if two_tables:
+        st.add_table('t1')
+    st.add_index('t0', hx.pick(_IDX, n0), hx.pick(_COLS, n0), unique=True if u0 else False)
+    if n1 != n0 or u1 != u0:
+        st.add_index('t0', hx.pick(_IDX, n1), hx.pick(_COLS, n1), unique=True if u1 else False)
+    cl = st.clone()
+    with hx.NoTracing():
+        before = _dump_state(st)
+        same_start = _dump_state(cl) == before
+    if not same_start:
+        return hx.verdict(False, True)
+    touched, other = (cl, st) if side else (st, cl)
+    table = hx.pick(_TABLES, ot)
+    name = hx.pick(_IDX, oi)
+    unique = True if ou else False
+    if not touched.has_table(table):
+        if op != 3:
+            return hx.verdict(True, False)
+        touched.add_table(table)
+    elif op == 0:
+        if touched.get_index(table, name, unique=unique):
+            return hx.verdict(True, False)
+        touched.add_index(table, name, hx.pick(_COLS, oi), unique=unique)
+    elif op == 1:
+        if not touched.get_index(table, name, unique=unique):
+            return hx.verdict(True, False)
+        touched.remove_index(table, name, unique=unique)
+    elif op == 2:
+        touched.clear_indexes(table)
+    else:
+        return hx.verdict(True, False)
+    with hx.NoTracing():
+        ok = _dump_state(other) == before
+        changed = _dump_state(touched) != before
+    return hx.verdict(ok, changed)
